@@ -846,11 +846,6 @@ class ModelMixin(ModelMixin2, ModelMixin3):
         """Validate an index operand of insert/setitem.  Returns the IdxE or None."""
         if isinstance(idx, Ref) and idx.kind == 'idx':
             ie: IdxE = st.get(idx.sym)
-            if ie.advloop is not None and ie.advloop not in (st.mon.get('advsym') or {}):
-                # running positions computed in one loop (enumerate(..., start=<index>)) and spent in another one: whether the
-                # k-th position still fits depends on what the second loop did before - the index typestate cannot follow that
-                raise AnalysisError('a position produced by enumerate(..., start=<index>) is used after the loop that produced it (collect-then-apply): '
-                                    'outside the index abstraction')
             self.hook('index-use', st, node, parent=p, idx=idx, entry=ie, what=what)
             return ie
         self.hook('index-use', st, node, parent=p, idx=idx, entry=None, what=what)
